@@ -49,7 +49,7 @@ def manager_for(case):
         pre = case["pre"]
         m.set_simulation_parameters(num_months=24, max_eft=mxa, min_eft=mna, max_height=HMAX, min_height=HMIN, max_boreholes=pre.get("cap"),
                                     continue_if_design_unmet=bool(pre.get("cont", False)))
-        m.set_design(flow_rate=case.get("flow_rate", 0.5), flow_type_str=flow)
+        m.set_design(flow_rate=pre.get("flow_rate", case.get("flow_rate", 0.5)), flow_type_str=pre.get("flow", flow))
         _inject(m, case)
         worlds.begin(World(case["world"], HMIN, HMAX, mxa, mna))
         so = sys.stdout
@@ -541,8 +541,12 @@ def expand(chunk):
                 roots = roots_monotone(0, counts, t, cls, {})
                 for pre_cap, cap in ((None, None), (3, None), (None, 3), (3, 4)):
                     for pre_cont, cont in ((False, False), (True, False), (False, True), (True, True)):
-                        yield {"fam": fam, "method": method, "synthetic": [counts], "cap": cap, "cont": cont, "pre": {"cap": pre_cap, "cont": pre_cont},
-                               "flow": chunk.get("flow", "borehole"), "world": {"kind": "roots", "roots": roots, **WVARS[0]}, "t": t, "cls": cls}
+                        for pre_flow, flow, rate in (("borehole", "borehole", 0.5), ("borehole", "system", 2.5), ("system", "borehole", 0.5)):
+                            if pre_flow != flow and (pre_cap, cap, pre_cont, cont) != (None, None, False, False):
+                                continue
+                            yield {"fam": fam, "method": method, "synthetic": [counts], "cap": cap, "cont": cont, "flow": flow, "flow_rate": rate,
+                                   "pre": {"cap": pre_cap, "cont": pre_cont, "flow": pre_flow, "flow_rate": 0.5 if pre_flow == "borehole" else 2.5},
+                                   "world": {"kind": "roots", "roots": roots, **WVARS[0]}, "t": t, "cls": cls}
     elif fam == "A2":
         n = chunk["n"]
         counts = list(range(1, n + 1))
